@@ -210,6 +210,24 @@ def evaluate(case):
             _cmp(kd.to_dict(_call(lambda: kd.mk_raw(alg, list(got), list(got.values())) * oc, "outer-series", "gp")),
                  {k: (float(v) if isinstance(v, F) else v) for k, v in kd.to_dict(os_).items()}, "outertan*outercos=outersin", fn,
                  "outertan(x) * outercos(x) vs outersin(x)")
+        # the series itself written out in a compiled (registered) function, with the float constants 1/2 and 1/6
+        if fn == "outerexp" and len(terms) <= 4 and ref.d <= 6 and len(keys) <= 6:
+            def f_series(a):
+                return 1 + a + (a ^ a) * (1 / 2) + (a ^ a ^ a) * (1 / 6)
+            sg = kd.to_dict(_call(lambda: alg.register(f_series)(x), "outer-series", fn, "registered 1 + x + x^x/2 + x^x^x/6"), op=fn)
+            _cmp(sg, exp, "outer-series", fn, f"the series 1 + x + (x^x)*(1/2) + (x^x^x)*(1/6) in a registered function vs the finite sum, x = {kd.show(dx)}")
+            counters["checked:registered-series"] = 1
+            # ... and of a scaled argument (a float constant with nine significant digits inside the compiled function)
+            c9 = 0.123456789
+
+            def f_scaled(a):
+                y = a * 0.123456789
+                return 1 + y + (y ^ y) * (1 / 2) + (y ^ y ^ y) * (1 / 6)
+            exp9 = {}
+            for t in Rr.outerexp_terms({k: float(v) * c9 for k, v in dx.items()}):
+                exp9 = Rr.add(exp9, t)
+            sg9 = kd.to_dict(_call(lambda: alg.register(f_scaled)(x), "outer-series", fn, "registered series of 0.123456789*x"), op=fn)
+            _cmp(sg9, exp9, "outer-series", fn, f"the outer series of 0.123456789*x written out in a registered function, x = {kd.show(dx)}")
         # the empty multivector (the zero element storing no blade) is in the domain too: the series starts with 1
         empty = kd.mk(alg, [], [])
         e_exp = {0: 1} if fn in ("outerexp", "outercos") else {}
